@@ -40,6 +40,8 @@ vector<double> NumCalcApplicationTools::getVector(const std::string& desc)
   if (desc.substr(0, 3) == "seq") // Bounds specified as sequence
   {
     map<string, string> keyvals;
+    if (desc.size() < 5)
+      throw Exception("Unvalid sequence specification, should be 'seq(from=...,to=...,step=...)': " + desc);
     KeyvalTools::multipleKeyvals(desc.substr(4, desc.size() - 5), keyvals);
     if (keyvals.find("from") == keyvals.end())
       throw Exception("Unvalid sequence specification, missing 'from' key: " + desc.substr(3, desc.size() - 5));
